@@ -23,7 +23,7 @@ BOUNDS = {
     "quick": "expression lists: fixed core + seed-selected slice; <=6 input symbols; synthetic trees depth<=4; 9 profiles (default, fast, 7 single steps); all assignments symbolic",
     "thorough": "all 9408 or-of-two-ands shapes over 4 symbols, depth<=2 trees over 3 symbols (n-ary/ITE families sampled with fixed seeds), 1000 fixed-seed depth 3/4 trees over 5 symbols, each in 3 list shapes; unoptimised lists of ~700 corpus programs",
 }
-OUTSIDE = "expression lists are enumerated, not symbolic; QuantumBooleanGate terms; apply_cse alone is only fed lists without referenced intermediates except in one small documented family"
+OUTSIDE = "expression lists are enumerated, not symbolic; QuantumBooleanGate terms"
 ASSUMPTIONS = [
     "meaning of a definition list = sequential definitions over the free input symbols (engine A s2z)",
     "sympy constructors used to build synthetic terms behave as in the front-end (terms are built through sympy's public And/Or/Not/Xor/ITE/Implies)",
@@ -358,13 +358,7 @@ def check_item(spec):
         if st.check(s, z3.Xor(a, b)) == "sat":
             res["findings"].append({"kind": "meaning:translate_ast.simplify_logic", "what": "%s -> %s" % (e_in, e_out), "cex": {}, "replayed": True})
     for pname, prof in profiles().items():
-        if pname == "step:apply_cse" and has_inter and spec.get("fam") != "cse-unmerged":
-            # documented precondition (see OUTSIDE): feed cse the merged list instead
-            from qlasskit.boolopt.bool_optimizer import merge_expressions
-
-            src_list = merge_expressions(raw)
-        else:
-            src_list = raw
+        src_list = raw
         try:
             out = prof.apply(list(src_list))
         except Exception as e:
